@@ -71,14 +71,17 @@ SetPos(p) ==
   /\ op' = [name |-> "SetPos", p |-> p]
   /\ UNCHANGED <<cfg, seed, dirty, mat, res>>
 
-(* krige.set_condition(cond_pos, cond_val)  /  krige.set_condition()  (the documented refresh) *)
-SetCondition(cp, cv) ==
+(* krige.set_condition(cond_pos, cond_val) / set_condition(cond_val = ..) / set_condition(cond_pos = ..) /
+   krige.set_condition()  (the documented refresh); `form` says which arguments are passed *)
+SetCondition(cp, cv, form) ==
+  /\ (form = "val" => cp = cfg.cpos) /\ (form = "pos" => cv = cfg.cval)
+  /\ (form = "none" => cp = cfg.cpos /\ cv = cfg.cval)
   /\ cfg' = [cfg EXCEPT !.cpos = cp, !.cval = cv]
   /\ mat' = [cpos |-> cp, model |-> cfg.model]
   /\ dirty' = FALSE
   /\ IF ClearOnSetCondition THEN kvar' = NoTag ELSE UNCHANGED kvar
   /\ UNCHANGED <<rawk, pos, seed, res>>
-  /\ op' = [name |-> "SetCondition", cp |-> cp, cv |-> cv,
+  /\ op' = [name |-> "SetCondition", cp |-> cp, cv |-> cv, form |-> form,
             refresh |-> (cp = cfg.cpos /\ cv = cfg.cval)]
 
 (* cond_srf.model.len_scale = ...  (in place)  or  cond_srf.model = <new model> *)
@@ -106,7 +109,7 @@ DeleteFields ==
 Next ==
   \/ \E p \in Poss \cup {Keep}, s \in Seeds \cup {Keep} : Call(p, s)
   \/ \E p \in Poss : SetPos(p)
-  \/ \E cp \in CPos, cv \in CVal : SetCondition(cp, cv)
+  \/ \E cp \in CPos, cv \in CVal, form \in {"both", "val", "pos", "none"} : SetCondition(cp, cv, form)
   \/ \E m \in Models, how \in {"inplace", "assign"} : ChangeModel(m, how)
   \/ \E v \in Means : ChangeMean(v)
   \/ DeleteFields
